@@ -309,13 +309,16 @@ def dump_one(
         raise PrepareDumpError(
             "Uncaught exception while preparing for dumping to a file.", filename
         ) from exc
-    with open(filename, "w") as f:
-        try:
+    # The file is closed inside the try block: buffered data is only written to disk
+    # when the file is flushed or closed, and a failure at that point is also a DumpError.
+    f = open(filename, "w")  # noqa: SIM115
+    try:
+        with f:
             format_module.dump_one(f, data, **kwargs)
-        except DumpError:
-            raise
-        except Exception as exc:
-            raise DumpError("Uncaught exception while dumping to a file", filename) from exc
+    except DumpError:
+        raise
+    except Exception as exc:
+        raise DumpError("Uncaught exception while dumping to a file", filename) from exc
     return data
 
 
@@ -398,13 +401,16 @@ def dump_many(
                 else other
             )
 
-    with open(filename, "w") as f:
-        try:
+    # The file is closed inside the try block: buffered data is only written to disk
+    # when the file is flushed or closed, and a failure at that point is also a DumpError.
+    f = open(filename, "w")  # noqa: SIM115
+    try:
+        with f:
             format_module.dump_many(f, checking_iterator(), **kwargs)
-        except (PrepareDumpError, DumpError):
-            raise
-        except Exception as exc:
-            raise DumpError("Uncaught exception while dumping to a file.", filename) from exc
+    except (PrepareDumpError, DumpError):
+        raise
+    except Exception as exc:
+        raise DumpError("Uncaught exception while dumping to a file.", filename) from exc
 
 
 @_reissue_warnings
@@ -440,10 +446,11 @@ def write_input(
 
     """
     input_module = _select_input_module(filename, fmt)
-    with open(filename, "w") as fh:
-        try:
+    # The file is closed inside the try block: buffered data is only written to disk
+    # when the file is flushed or closed, and a failure at that point is also a WriteInputError.
+    fh = open(filename, "w")  # noqa: SIM115
+    try:
+        with fh:
             input_module.write_input(fh, data, template, atom_line, **kwargs)
-        except Exception as exc:
-            raise WriteInputError(
-                "Uncaught exception while writing an input file.", filename
-            ) from exc
+    except Exception as exc:
+        raise WriteInputError("Uncaught exception while writing an input file.", filename) from exc
